@@ -5,7 +5,9 @@ import (
 	"encoding/base64"
 	"errors"
 	"fmt"
+	"math"
 	"reflect"
+	"strconv"
 	"time"
 
 	"github.com/samsarahq/thunder/graphql"
@@ -353,6 +355,20 @@ func getScalarArgParser(typ reflect.Type) (*argParser, graphql.Type, bool) {
 	return nil, nil, false
 }
 
+// checkInteger returns an error unless f is a whole number with min <= f < limit.
+// Converting a float64 that has a fractional part, or that the destination
+// type cannot hold, to an integer type truncates it or wraps it around, so an
+// argument like -1 for a uint32 would silently arrive as 4294967295.
+func checkInteger(f float64, min float64, limit float64) error {
+	if f != math.Trunc(f) {
+		return errors.New("not an integer")
+	}
+	if f < min || f >= limit {
+		return errors.New("integer out of range")
+	}
+	return nil
+}
+
 // scalarArgParsers are the static arg parsers that we can use for all scalar &
 // static types.
 var scalarArgParsers = map[reflect.Type]*argParser{
@@ -382,6 +398,9 @@ var scalarArgParsers = map[reflect.Type]*argParser{
 			if !ok {
 				return errors.New("not a number")
 			}
+			if math.Abs(asFloat) > math.MaxFloat32 {
+				return errors.New("number out of range")
+			}
 			dest.Set(reflect.ValueOf(float32(asFloat)).Convert(dest.Type()))
 			return nil
 		},
@@ -391,6 +410,9 @@ var scalarArgParsers = map[reflect.Type]*argParser{
 			asFloat, ok := value.(float64)
 			if !ok {
 				return errors.New("not a number")
+			}
+			if err := checkInteger(asFloat, -(1 << 63), 1<<63); err != nil {
+				return err
 			}
 			dest.Set(reflect.ValueOf(int64(asFloat)).Convert(dest.Type()))
 			return nil
@@ -402,6 +424,9 @@ var scalarArgParsers = map[reflect.Type]*argParser{
 			if !ok {
 				return errors.New("not a number")
 			}
+			if err := checkInteger(asFloat, math.MinInt32, 1<<31); err != nil {
+				return err
+			}
 			dest.Set(reflect.ValueOf(int32(asFloat)).Convert(dest.Type()))
 			return nil
 		},
@@ -411,6 +436,9 @@ var scalarArgParsers = map[reflect.Type]*argParser{
 			asFloat, ok := value.(float64)
 			if !ok {
 				return errors.New("not a number")
+			}
+			if err := checkInteger(asFloat, math.MinInt16, 1<<15); err != nil {
+				return err
 			}
 			dest.Set(reflect.ValueOf(int16(asFloat)).Convert(dest.Type()))
 			return nil
@@ -422,6 +450,9 @@ var scalarArgParsers = map[reflect.Type]*argParser{
 			if !ok {
 				return errors.New("not a number")
 			}
+			if err := checkInteger(asFloat, math.MinInt8, 1<<7); err != nil {
+				return err
+			}
 			dest.Set(reflect.ValueOf(int8(asFloat)).Convert(dest.Type()))
 			return nil
 		},
@@ -431,6 +462,9 @@ var scalarArgParsers = map[reflect.Type]*argParser{
 			asFloat, ok := value.(float64)
 			if !ok {
 				return errors.New("not a number")
+			}
+			if err := checkInteger(asFloat, -math.Pow(2, strconv.IntSize-1), math.Pow(2, strconv.IntSize-1)); err != nil {
+				return err
 			}
 			dest.Set(reflect.ValueOf(int(asFloat)).Convert(dest.Type()))
 			return nil
@@ -442,7 +476,10 @@ var scalarArgParsers = map[reflect.Type]*argParser{
 			if !ok {
 				return errors.New("not a number")
 			}
-			dest.Set(reflect.ValueOf(int64(asFloat)).Convert(dest.Type()))
+			if err := checkInteger(asFloat, 0, 1<<64); err != nil {
+				return err
+			}
+			dest.Set(reflect.ValueOf(uint64(asFloat)).Convert(dest.Type()))
 			return nil
 		},
 	},
@@ -451,6 +488,9 @@ var scalarArgParsers = map[reflect.Type]*argParser{
 			asFloat, ok := value.(float64)
 			if !ok {
 				return errors.New("not a number")
+			}
+			if err := checkInteger(asFloat, 0, 1<<32); err != nil {
+				return err
 			}
 			dest.Set(reflect.ValueOf(uint32(asFloat)).Convert(dest.Type()))
 			return nil
@@ -462,6 +502,9 @@ var scalarArgParsers = map[reflect.Type]*argParser{
 			if !ok {
 				return errors.New("not a number")
 			}
+			if err := checkInteger(asFloat, 0, 1<<16); err != nil {
+				return err
+			}
 			dest.Set(reflect.ValueOf(uint16(asFloat)).Convert(dest.Type()))
 			return nil
 		},
@@ -472,6 +515,9 @@ var scalarArgParsers = map[reflect.Type]*argParser{
 			if !ok {
 				return errors.New("not a number")
 			}
+			if err := checkInteger(asFloat, 0, 1<<8); err != nil {
+				return err
+			}
 			dest.Set(reflect.ValueOf(uint8(asFloat)).Convert(dest.Type()))
 			return nil
 		},
@@ -481,6 +527,9 @@ var scalarArgParsers = map[reflect.Type]*argParser{
 			asFloat, ok := value.(float64)
 			if !ok {
 				return errors.New("not a number")
+			}
+			if err := checkInteger(asFloat, 0, math.Pow(2, strconv.IntSize)); err != nil {
+				return err
 			}
 			dest.Set(reflect.ValueOf(uint(asFloat)).Convert(dest.Type()))
 			return nil
